@@ -215,6 +215,9 @@ def semi_parametric(X, y, gamma=None):
         eta[j] = norm.ppf(min(1.0, np.mean(norm.cdf(z))))
     if not np.all(np.isfinite(eta)):
         return -INF
+    tail = float(np.min(np.minimum(norm.cdf(eta), norm.sf(eta))))
+    if tail < 1e-6:
+        return None          # Phi^-1 at 1 - 1e-15 amplifies rounding by 1e9: no meaningful 1e-8 comparison
     q = norm.ppf(rankdata(X, axis=0) / (n + 1))
     den = np.sum(norm.ppf(np.arange(1, n + 1) / (n + 1)) ** 2)
     R = q.T @ q / den
@@ -403,7 +406,7 @@ class C20(PropCheck):
         n = r.randint(d + 4, d + 60)
         nr = np.random.RandomState(r.randrange(2 ** 31))
         X = nr.randn(n, d) @ (np.eye(d) + 0.5 * nr.randn(d, d)) + 3 * nr.randn(d)
-        y = X.mean(0) + nr.randn(d) * X.std(0) * (r.choice([0.2, 1.0, 2.0]))
+        y = X.mean(0) + nr.randn(d) * X.std(0) * (r.choice([0.2, 1.0, 2.0]) if 'semi' not in mode else r.choice([0.2, 0.7]))
         if mode == 'go_far':
             y = X.mean(0) + r.choice([20, 50, 300]) * X.std(0)
         c = dict(kind='val', mode=mode, X=X.tolist(), y=y.tolist(), obs_2d=r.random() < 0.5)
@@ -702,6 +705,9 @@ class C20(PropCheck):
 
     def py_val(self, case, out):
         want = self.spec_val(case)
+        if want is None:
+            self.bump('val:semi:ill-conditioned-not-compared')
+            return []
         if out['loglik'] is None:
             return [('likelihood_formula[%s]' % case['mode'],
                      '%s, n=%d, d=%d: raised %s, published formula gives %r' % (case['mode'], len(case['X']), len(case['y']),
@@ -714,7 +720,11 @@ class C20(PropCheck):
 
     def classify(self, case, out, clause):
         if case['kind'] == 'val' and isinstance(out, dict) and out.get('loglik', 0) is None and len(case['y']) == 1:
-            return 'd1-raises-' + {'semi_warton': 'semi', 'whiten+warton': 'whiten'}.get(case['mode'], case['mode'])
+            # known: these four modes raise on a single summary statistic; the standard / Warton / Ghurye-Olkin
+            # likelihoods must work at d = 1 and get no key
+            key = {'mis_mean': 'mis_mean', 'mis_var': 'mis_var', 'semi': 'semi', 'semi_warton': 'semi',
+                   'whiten': 'whiten', 'whiten+warton': 'whiten'}.get(case['mode'])
+            return None if key is None else 'd1-raises-' + key
         if case['kind'] == 'val' and case['mode'] in ('go', 'go_far') and isinstance(out, dict) and out.get('loglik') is not None:
             d = len(case['y'])
             want = self.spec_val(case)
